@@ -125,7 +125,13 @@ PREFIXES = ["", "<!DOCTYPE html>", "<html>", "<head>", "<head><noscript>", "<hea
             "<svg><script>", "<svg><style>", "<!DOCTYPE html PUBLIC \"-//W3C//DTD HTML 3.2//EN\"><p>", "<table><tr><td><b><p>", "<li><div>", "<dd><address>",
             "<table><caption><b>", "<table><tbody><svg>", "<template>", "<h1><b>", "<a><p>", "<nobr><p>", "<button><p>", "<form><table>", "<table><form>",
             # a formatting element that is open but not in scope (adoption agency step "in the stack but not in scope")
-            "<b><table>", "<i><svg><foreignObject>", "<a><math><mi>", "<em><svg><desc>", "<b><table><tbody>"]
+            "<b><table>", "<i><svg><foreignObject>", "<a><math><mi>", "<em><svg><desc>", "<b><table><tbody>",
+            # a foreign element that carries an HTML structural name, then an integration point (so that the in-body rules
+            # run with that element on the stack): every name-only test of the stack is exposed
+            "<svg><html><desc>", "<svg><body><foreignObject>", "<math><html><mi>", "<svg><head><title>", "<svg><table><desc>",
+            "<svg><select><foreignObject>", "<svg><p><desc>", "<svg><form><desc>", "<math><frameset><mtext>", "<svg><li><desc>",
+            "<svg><button><foreignObject>", "<svg><template><desc>", "<math><td><mi>", "<svg><a><desc>", "<svg><option><desc>",
+            "<table><tr><td><svg><tr><desc>", "<svg><dd><foreignObject>", "<svg><h1><desc>", "<svg><nobr><desc>", "<svg><applet><desc>"]
 PROBE_TEXT = ["x", " ", "\t", "\n", "\x0c", "\x00", "&amp;", "x y", " x", "<!--c-->", "<!DOCTYPE html>", ""]
 SUFFIXES = ["y<!--z-->", "<b>y</b><p>z"]
 
